@@ -231,7 +231,7 @@ theorem typeInfo_inv (fx : Bool) : ∀ f : Nat,
     · intro st hf
       unfold readTypeInfo
       refine invAt_bind (k2 := 0) (inv_readShort fx st) (fun id st1 h1 => ?_)
-      have hcls : Inv fx 0 (if (id == 0) = true then (do let cls ← readString; pure (TypeStr.apacheType cls)) else (pure id : P Nat)) := by
+      have hcls : Inv fx 0 (if (id == 0) = true then (do let cls ← readString; let t := TypeStr.apacheType cls; pure (if t == 0x20 || t == 0x21 || t == 0x22 || t == 0x31 then 0 else t)) else (pure id : P Nat)) := by
         inv0
       refine invAt_bind (k1 := 0) (k2 := 0) (hcls st1) (fun typ st2 h2 => ?_)
       split
